@@ -79,6 +79,11 @@ static inline double fastabs(double x){
 
 static void stumpff_cs(double *restrict cs, double z) {
     unsigned int n = 0;
+    if (!isfinite(z)){
+        // z = +-inf (overflow of beta*X*X) or NaN: the quartering loop below would never terminate.
+        cs[0] = cs[1] = cs[2] = cs[3] = cs[4] = cs[5] = nan("");
+        return;
+    }
     while(fastabs(z)>0.1){
         z = z/4.;
         n++;
@@ -107,6 +112,11 @@ static void stumpff_cs(double *restrict cs, double z) {
 }
 static void stumpff_cs3(double *restrict cs, double z) {
     unsigned int n = 0;
+    if (!isfinite(z)){
+        // z = +-inf (overflow of beta*X*X) or NaN: the quartering loop below would never terminate.
+        cs[0] = cs[1] = cs[2] = cs[3] = nan("");
+        return;
+    }
     while(fabs(z)>0.1){
         z = z/4.;
         n++;
